@@ -63,6 +63,7 @@ struct AttemptRec {
 
 struct NodeShared {
     addr: SocketAddr,
+    _holder: socket2::Socket,
     listener: Mutex<Option<TcpListener>>,
     /// Outcome the node applies to whatever arrives now (set by the probe).
     current: Mutex<Option<Outcome>>,
@@ -78,6 +79,7 @@ impl NodeShared {
         if l.is_none() {
             let s = socket2::Socket::new(socket2::Domain::IPV4, socket2::Type::STREAM, None).unwrap();
             s.set_reuse_address(true).ok();
+            s.set_reuse_port(true).ok();
             for _ in 0..200 {
                 if s.bind(&self.addr.into()).is_ok() {
                     break;
@@ -200,11 +202,18 @@ struct Node {
 
 impl Node {
     fn start() -> Self {
-        let l = TcpListener::bind("127.0.0.1:0").unwrap();
-        let addr = l.local_addr().unwrap();
-        drop(l);
+        // The node's port stays reserved for the whole case by a bound, never-listening
+        // socket (SO_REUSEPORT lets the node's own listener share it): while the node
+        // is "down" a connect is refused, and no other socket on the machine can be
+        // handed the port in the meantime.
+        let holder = socket2::Socket::new(socket2::Domain::IPV4, socket2::Type::STREAM, None).unwrap();
+        holder.set_reuse_address(true).ok();
+        holder.set_reuse_port(true).ok();
+        holder.bind(&crate::util::lo0().as_str().parse::<SocketAddr>().unwrap().into()).unwrap();
+        let addr = holder.local_addr().unwrap().as_socket().unwrap();
         let shared = Arc::new(NodeShared {
             addr,
+            _holder: holder,
             listener: Mutex::new(None),
             current: Mutex::new(None),
             attempts: Mutex::new(Vec::new()),
@@ -264,14 +273,27 @@ fn one_call(fleet: &AnyFleet, use_message: bool) -> (Option<Value>, Option<Strin
     }
 }
 
+/// The per-call timeout is what turns a silent node into a transport failure, so it
+/// has to be short for the generated runs; under load a reply can then arrive after
+/// the deadline and the run no longer follows the script. A failure is therefore
+/// re-confirmed once with a 20x longer timeout before it is reported: a defect in the
+/// retry logic is a function of the script and fails again, a scheduling artefact
+/// does not.
 pub fn check(c: &Case) -> CheckResult {
+    match check_with(c, 80) {
+        Ok(info) => Ok(info),
+        Err(_) => check_with(c, 1600).map(|info| info.class("first-run-failure-not-reconfirmed")),
+    }
+}
+
+fn check_with(c: &Case, timeout_ms: u64) -> CheckResult {
     let node = Node::start();
-    let cfg = NodeConfig::new("127.0.0.1", node.shared.addr.port())
+    let cfg = NodeConfig::new(crate::util::lo(), node.shared.addr.port())
         .and_then(|c| c.with_name("n"))
-        .and_then(|c| c.with_timeout(Duration::from_millis(80)))
+        .and_then(|c| c.with_timeout(Duration::from_millis(timeout_ms)))
         .map_err(|e| Fail::new("harness-config", e.to_string()))?;
     let opts = FleetOptions {
-        default_timeout: Duration::from_millis(80),
+        default_timeout: Duration::from_millis(timeout_ms),
         retry_policy: RetryPolicy {
             max_attempts: c.max_attempts as usize,
             delay: Duration::from_millis(1),
@@ -464,7 +486,7 @@ pub fn check_broadcast(c: &Bcast) -> CheckResult {
     for (i, (n, mask)) in nodes.iter().zip(&c.nodes).enumerate() {
         let tags: Vec<&str> = (0..3).filter(|b| mask & (1 << b) != 0).map(|b| TAGS[b]).collect();
         cfgs.push(
-            NodeConfig::new("127.0.0.1", n.shared.addr.port())
+            NodeConfig::new(crate::util::lo(), n.shared.addr.port())
                 .and_then(|c| c.with_name(format!("n{i}")))
                 .and_then(|c| c.with_timeout(Duration::from_millis(2000)))
                 .map(|c| c.with_tags(tags))
